@@ -3,6 +3,7 @@ package main
 import (
 	"fmt"
 	"go/types"
+	"sort"
 	"strings"
 
 	"golang.org/x/tools/go/ssa"
@@ -72,6 +73,44 @@ func c03HalfCloser(c *Ctx, r *Report, rule string) {
 		chains = append(chains, chain{"NetConn() wrapper (" + typeStr(netConnWrapper) + ") over tcp", ref("wrapper", netConnWrapper), map[string]SV{"inner:wrapper": ref("tcp", tcpT)}, "tcp"},
 			chain{"NetConn() wrapper over tls over tcp", ref("wrapper", netConnWrapper), map[string]SV{"inner:wrapper": ref("tlsconn", tlsT), "inner:tlsconn": ref("tcp", tcpT)}, "tlsconn"})
 	}
+	// every concrete type a handler of the module puts around the client's connection (the argument of
+	// Connection.Wrap) and that does not offer CloseWrite itself must be looked through: over a TCP socket the
+	// half-close still has to reach the socket (a wrapper halfCloser does not know ends the search with "none", and
+	// the client never sees the end of the upstream's stream while that handler is in front)
+	wrapped := map[string]types.Type{}
+	for _, f := range c.Funcs {
+		for _, ci := range callsIn(f) {
+			callee := ci.Common().StaticCallee()
+			if callee == nil || fname(callee) != "layer4.(*Connection).Wrap" || len(ci.Common().Args) < 2 {
+				continue
+			}
+			for _, t := range ifaceDynTypes(ci.Common().Args[1], map[ssa.Value]bool{}) {
+				wrapped[typeStr(t)] = t
+			}
+		}
+	}
+	var wnames []string
+	for n := range wrapped {
+		wnames = append(wnames, n)
+	}
+	sort.Strings(wnames)
+	nWrapped := 0
+	for _, n := range wnames {
+		t := wrapped[n]
+		if types.NewMethodSet(t).Lookup(nil, "CloseWrite") != nil {
+			continue // covered by the chains above (tls) / the first connection that offers it
+		}
+		nWrapped++
+		want := "tcp"
+		if n == "modules/l4tee.teeConn" {
+			// the one exception, by name: the wrapper of a tee BRANCH. The client's half-close belongs to the main
+			// chain's relay, so through this type nothing may be reached (the tee-branch rule of this property
+			// demands the same of the type's method set)
+			want = ""
+		}
+		chains = append(chains, chain{"wrapped by a handler: " + n + " over tcp", ref("wrapped", t), map[string]SV{"inner:wrapped": ref("tcp", tcpT), "wrapped.Conn": ref("tcp", tcpT)}, want})
+	}
+	r.check(nWrapped >= 1, rule, fnName, "wrapper types found", c.pos(fn.Pos()), fmt.Sprintf("%d concrete type(s) without CloseWrite reach Connection.Wrap: %s", nWrapped, strings.Join(wnames, ", ")), "undecided: no concrete type reaching Connection.Wrap was found (the handlers' wrapping was moved?)")
 	for _, ch := range chains {
 		sc := &Scenario{Name: ch.name, MaxVisit: 8, Params: map[string]SV{"p0": ch.top}, Heap: map[string]SV{}}
 		for k, v := range ch.heap {
@@ -284,4 +323,36 @@ func c03TeeBranch(c *Ctx, r *Report, rule string) {
 	if nBranch == 0 || nNext == 0 {
 		r.bad(rule, fnName, "instances", c.pos(fn.Pos()), fmt.Sprintf("undecided: %d branch and %d next hand-over(s) found, expected at least one each", nBranch, nNext))
 	}
+}
+
+// ifaceDynTypes: the concrete types of the values that flow into the interface value v (through phis, interface
+// conversions and the cells of local variables); nil entries are left out.
+func ifaceDynTypes(v ssa.Value, seen map[ssa.Value]bool) []types.Type {
+	if seen[v] {
+		return nil
+	}
+	seen[v] = true
+	switch x := v.(type) {
+	case *ssa.MakeInterface:
+		return []types.Type{x.X.Type()}
+	case *ssa.ChangeInterface:
+		return ifaceDynTypes(x.X, seen)
+	case *ssa.Phi:
+		var out []types.Type
+		for _, e := range x.Edges {
+			out = append(out, ifaceDynTypes(e, seen)...)
+		}
+		return out
+	case *ssa.UnOp:
+		if al, ok := x.X.(*ssa.Alloc); ok {
+			var out []types.Type
+			for _, ref := range *al.Referrers() {
+				if st, ok := ref.(*ssa.Store); ok && st.Addr == al {
+					out = append(out, ifaceDynTypes(st.Val, seen)...)
+				}
+			}
+			return out
+		}
+	}
+	return nil
 }
